@@ -205,6 +205,23 @@ structure Frame where
 
 def lookupCtx (fr : Frame) (t : Ty) : Option Val := (fr.ctx.find? (fun (t', _) => t' == t)).map (·.2)
 
+/-- what the selected `case` (or `default`) of an enum switch does -/
+def applyEnumAction (fr : Frame) (old : Val) (act : EnumAction) : E Val :=
+  match act with
+  | .member _ v => pure (.basic (constRepr v))
+  | .ignore => pure old
+  | .panic => panicE .enumUnknown
+  | .error w => errE (wrapErr w fr.idx fr.keys .enumUnknown)
+
+/-- the value passed for one argument of a call (the converter itself is not a value) -/
+def argOf (fr : Frame) (src : Val) (a : CallArg) : E (Option Val) :=
+  match a with
+  | .self => pure none
+  | .ctx t => (match lookupCtx fr t with | some v => pure (some v) | none => stuckE "context argument missing")
+  | .ctxMissing _ => stuckE "call built without its context argument"
+  | .source => pure (some src)
+  | .sourceParent => (match fr.parent with | some pv => pure (some pv) | none => stuckE "no parent pointer")
+
 mutual
   /-- the new value of a target location: `old` is what it held before -/
   def evalConv (p : Program) : Nat → Frame → Conv → Val → Val → E Val
@@ -215,12 +232,7 @@ mutual
       | .cast inner => evalConv p fuel fr inner src old
       | .underlying _ _ inner => evalConv p fuel { fr with parent := none } inner src old
       | .call callee args retErr w => do
-        let argVals ← args.filterMapM (fun a => match a with
-          | .self => pure none
-          | .ctx t => (match lookupCtx fr t with | some v => pure (some v) | none => stuckE "context argument missing")
-          | .ctxMissing _ => stuckE "call built without its context argument"
-          | .source => pure (some src)
-          | .sourceParent => (match fr.parent with | some pv => pure (some pv) | none => stuckE "no parent pointer"))
+        let argVals ← args.filterMapM (argOf fr src)
         match callee with
         | .structMethod name =>
           -- a method of the source value: uninterpreted, fails when the harness says so for this receiver
@@ -298,11 +310,7 @@ mutual
         let act := match src with
           | .basic r => ((cases.find? (fun (x : S × ConstVal × EnumAction) => constRepr x.2.1 == r)).map (fun (x : S × ConstVal × EnumAction) => x.2.2)).getD dflt
           | _ => dflt
-        match act with
-        | .member _ v => pure (.basic (constRepr v))
-        | .ignore => pure old
-        | .panic => panicE .enumUnknown
-        | .error w => errE (wrapErr w fr.idx fr.keys .enumUnknown)
+        applyEnumAction fr old act
       | .withCtor ctor toPointer rest => do
         let cv ← evalConv p fuel fr ctor src .nil
         let init ← if toPointer then (do let l ← freshLoc; pure (Val.ptr l cv)) else pure cv
